@@ -22,11 +22,11 @@ def run(ctx):
         open(cases, "w").write(ctx.replay["case_record"]["line"] + "\n")
     elif ctx.tier == "quick":
         for cfg in ("Interp_quick.cfg", "Interp_quick2.cfg"):
-            ctx.tlc("sem", "Interp", cfg, cases_path=cases, timeout_s=600, workers=workers)
+            ctx.tlc("sem", "Interp", cfg, cases_path=cases, timeout_s=1800, workers=workers)
     else:
-        ctx.tlc("sem", "Interp", "Interp_quick2.cfg", cases_path=cases, timeout_s=600, workers=workers)
-        ctx.tlc("sem", "Interp", "Interp_thorough.cfg", cases_path=cases, timeout_s=900, workers=workers)
-        r = ctx.tlc("sem", "Interp", "Interp_sim.cfg", cases_path=cases, timeout_s=600, workers=workers,
+        ctx.tlc("sem", "Interp", "Interp_quick2.cfg", cases_path=cases, timeout_s=1800, workers=workers)
+        ctx.tlc("sem", "Interp", "Interp_thorough.cfg", cases_path=cases, timeout_s=1800, workers=workers)
+        r = ctx.tlc("sem", "Interp", "Interp_sim.cfg", cases_path=cases, timeout_s=1800, workers=workers,
                     simulate="num=1000", depth=60, seed=ctx.seed)
         ctx.extra["simulated_literals"] = r.cases
         exhaustive = False
@@ -38,7 +38,7 @@ def run(ctx):
             uniq.append(line)
     open(cases, "w").writelines(uniq)
     h = ctx.build_harness("semh")
-    res = ctx.run_harness(h, ["interp"], cases, timeout_s=2400)
+    res = ctx.run_harness(h, ["interp"], cases, timeout_s=7000)
     ctx.tally(res, cases_path=cases)
     ctx.programs = int(ctx.extra.get("programs", 0)) + int(ctx.extra.get("go_expansion_programs", 0))
     ctx.disagreements_checked = int(ctx.extra.get("compared_with_model", 0))
